@@ -24,6 +24,7 @@ import (
 )
 
 type CrashScenario struct {
+	Log    bool   `json:"log"`
 	ID     string `json:"id"`
 	Name   string `json:"name"`
 	Lines  int    `json:"lines"`  // number of logged lines
@@ -42,6 +43,7 @@ type childSpec struct {
 	Words  int    `json:"words"`
 	KillAt int    `json:"killAt"`
 	Second bool   `json:"second"` // the second saver's output (lines of 'y')
+	Log    bool   `json:"log"`    // run with -rapid.log (rapid's own eager logger)
 }
 
 var reStamp = regexp.MustCompile(`\d{4}/\d\d/\d\d \d\d:\d\d:\d\d\.\d{6}`)
@@ -91,7 +93,11 @@ func ChildMain(t *testing.T, specJSON string) {
 			select {}
 		}
 	})
-	setFlags(map[string]string{"checks": "1", "seed": "12345", "shrinktime": "0s"})
+	fl := map[string]string{"checks": "1", "seed": "12345", "shrinktime": "0s"}
+	if cs.Log {
+		fl["log"] = "true"
+	}
+	setFlags(fl)
 	ch := "x"
 	if cs.Second {
 		ch = "y"
@@ -195,7 +201,7 @@ func crashMode(t *testing.T, rec *Recorder) {
 			t.Fatal(err)
 		}
 		base, _ := os.MkdirTemp(*fWork, "verif-crash-")
-		cs := childSpec{Name: sc.Name, Lines: sc.Lines, LineN: sc.LineN, Words: sc.Words}
+		cs := childSpec{Name: sc.Name, Lines: sc.Lines, LineN: sc.LineN, Words: sc.Words, Log: sc.Log}
 		ref := filepath.Join(base, "ref")
 		_ = os.MkdirAll(ref, 0o775)
 		_, _, total, err := runChild(ref, cs)
